@@ -60,15 +60,31 @@
      log (exp x) = x).  NOT proved: the RBF parameter derivative (compared at 1e-12 and monitored by finite differences).
    * CMACMap: C04_cmac_batch_eq_single, C04_cmac_derivative (linear in the parameters: exact identity, arbitrary tile indices).
    * Ensemble (weighted mean): C04_ensemble_batch_eq_single.
+   * KernelExpansion (C04Kexp.v / C04KexpProofs.v), for ANY kernel function: C04_kexp_batch_eq_single, C04_kexp_param_roundtrip
+     (alpha row-major then offset; count), C04_kexp_blocks (the result does not depend on how the basis is cut into batches),
+     C04_kexp_value (b_o + sum_j k(basis_j, x) alpha(j, o)), C04_kexp_linear_in_parameters (exact; the class advertises no derivative,
+     so there is no coded gradient), C04_kexp_kernels_are_C05 (the kernels of the exact runs are C05Model.k_lin / k_poly).
+   * Row-wise activations (C04RowActProofs.v), over every FIELD (field_theory with Leibniz equality, e.g. Qc, R):
+     C04_dual_div_sound (the dual quotient is the solution of r * q = p), C04_normalizer_row_derivative, C04_softmax_row_derivative_partial
+     (coded multiplyDerivative = adjoint of the dual-number tangent of a / sum a resp. exp a / sum exp a, on rows with non-zero
+     denominator), C04_layer_derivative_normalizer, C04_layer_derivative_softmax_partial (= C04_layer_derivative_partial for these two
+     activations), C04_softmax_layer_kind_ok_partial (with exp > 0 a softmax LinearModel is a layer kind of C04_het_chain_rule:
+     the lift of C04_concat_chain_rule_partial).  `_partial`: exp' = exp is the definition of the dual exponential.  NOT proved: the
+     chain rule through a NormalizerNeuron layer inside a concatenation (needs the side condition on every row; layer level only),
+     NeuronLayer<Softmax/Normalizer> and Conv2DModel with these activations (compared only).
 
    COMPARED on every run (tools/c04.py, extracted model vs /repo): LinearModel x 7 activations, NeuronLayer x 7, Normalizer,
    Classifier, Conv2DModel x activations (exact on dyadic inputs with Linear / Rectifier), PoolingLayer (exact, incl. tie streams),
    ResizeLayer (bit-exact: the float instantiation performs the floating point operations in the order of the C++), RBFLayer, CMACMap,
    Ensemble<LinearModel>, ConcatenatedModel of any of these with optimisation flags on / off (parameter vector, advertised features,
    eval, weightedParameterDerivative, weightedInputDerivative, weightedDerivatives; homogeneous LinearModel networks are run through
-   both net models, which must agree).   MONITORED ONLY (batch vs single, round trip, finite differences): KernelExpansion. *)
-From Coq Require Import List Arith Bool ZArith Ring Lia.
-From SharkV Require Import C04Model C04Aux C04Proofs C04Conv C04SumProofs C04ConvProofs C04ConvDerivProofs C04ConvThmProofs C04ConvDualProofs C04Pool C04PoolProofs C04Het C04HetProofs C04KindProofs C04Misc C04MiscProofs C04Kexp C04KexpProofs.
+   both net models, which must agree), KernelExpansion with Linear / Polynomial (exact on integer data) / Gaussian kernels, basis in
+   explicitly given unequal batches, with and without offset, zero rows of alpha.   Every anchored class is compared; the monitors
+   (batch vs single, round trip, finite differences) run on all of them as before.   NOT proved, compared and monitored only:
+   the RBFLayer parameter derivative. *)
+From Coq Require Import List Arith Bool ZArith Ring Lia Field QArith Qcanon.
+Close Scope Qc_scope. Close Scope Q_scope.
+From SharkV Require Import C04Model C04Aux C04Proofs C04Conv C04SumProofs C04ConvProofs C04ConvDerivProofs C04ConvThmProofs C04ConvDualProofs C04Pool C04PoolProofs C04Het C04HetProofs C04KindProofs C04Misc C04MiscProofs C04Kexp C04KexpProofs C04RowActProofs.
 Import ListNotations.
 
 (* ---------------- batch = single ---------------- *)
@@ -709,4 +725,107 @@ Example C04_kexp_example :
 Proof.
   cbv zeta. split; [right; reflexivity|]. split; [repeat constructor|]. split; [reflexivity|]. split; [vm_compute; reflexivity|].
   intros P. apply ke_batch_is_map.
+Qed.
+
+(* ======================= the row-wise activations: SoftmaxNeuron and NormalizerNeuron (C04RowActProofs.v) ======================= *)
+(* dual division: ddivF p q is THE dual number r with r * q = p (quotient rule), for fst q <> 0 *)
+Theorem C04_dual_div_sound :
+  forall (A : Type) (zero one : A) (add mul sub : A -> A -> A) (opp : A -> A) (div : A -> A -> A) (inv : A -> A),
+    field_theory zero one add mul sub opp div inv eq ->
+    forall p q r : D A, fst q <> zero ->
+      dmul A add mul (ddivF A mul sub div p q) q = p /\ (dmul A add mul r q = p -> r = ddivF A mul sub div p q).
+Proof. intros A zero one add mul sub opp div inv F p q r H. split; [apply (ddivF_sound A zero one add mul sub opp div inv F); auto|apply (ddivF_unique A zero one add mul sub opp div inv F); auto]. Qed.
+Print Assumptions C04_dual_div_sound.
+
+(* row_ok aA aD dom: on every row of the domain, the evalInPlace code over dual numbers has the value of the code over A, and the
+   coded multiplyDerivative is the adjoint of its tangent:  <c, tangent of the row map> = <multiplyDerivative(c), tangent of the input row>.
+   NormalizerNeuron a / sum a (coded: (c - <c, y>) / sum a with the stored sum), over every field, wherever sum a <> 0: *)
+Theorem C04_normalizer_row_derivative :
+  forall (A : Type) (zero one : A) (add mul sub : A -> A -> A) (opp : A -> A) (div : A -> A -> A) (inv : A -> A),
+    field_theory zero one add mul sub opp div inv eq ->
+    row_ok A zero add mul (normalizer_act zero add mul sub div)
+           (normalizer_act (dzero A zero) (dadd A add) (dmul A add mul) (dsubF A sub) (ddivF A mul sub div))
+           (fun z => vsum zero add z <> zero).
+Proof. exact normalizer_row_ok. Qed.
+Print Assumptions C04_normalizer_row_derivative.
+
+(* SoftmaxNeuron exp a / sum exp a (coded: delta_j = (c_j - sum_k c_k y_k) * y_j), over every field with a function exp whose dual
+   lift is dexpF (u, u') = (exp u, exp u * u'), wherever sum exp a <> 0.   `_partial` in the same sense as for tanh etc.: that
+   exp' = exp is the definition of dexpF, not derived from a power series *)
+Theorem C04_softmax_row_derivative_partial :
+  forall (A : Type) (zero one : A) (add mul sub : A -> A -> A) (opp : A -> A) (div : A -> A -> A) (inv : A -> A),
+    field_theory zero one add mul sub opp div inv eq ->
+    forall expA : A -> A,
+      row_ok A zero add mul (softmax_act zero add mul sub div expA)
+             (softmax_act (dzero A zero) (dadd A add) (dmul A add mul) (dsubF A sub) (ddivF A mul sub div) (dexpF A mul expA))
+             (fun z => vsum zero add (map expA z) <> zero).
+Proof. exact softmax_row_ok. Qed.
+Print Assumptions C04_softmax_row_derivative_partial.
+
+(* C04_layer_derivative_partial lifted to the two row activations: LinearModel<.., NormalizerNeuron> / <.., SoftmaxNeuron>
+   (weights dW and offset db with their directions, inputs XD with their directions) *)
+Theorem C04_layer_derivative_normalizer :
+  forall (A : Type) (zero one : A) (add mul sub : A -> A -> A) (opp : A -> A) (div : A -> A -> A) (inv : A -> A),
+    field_theory zero one add mul sub opp div inv eq ->
+    forall (nin nout : nat) (dW : list (list (D A))) (db : list (D A)) (XD : list (list (D A))) (C : list (list A)),
+      gwf A nin nout dW db -> rows nin XD -> rows nout C ->
+      (forall x, In x XD -> vsum zero add (lin_pre zero add mul (glA A dW db (normalizer_act zero add mul sub div)) (map fst x)) <> zero) ->
+      let lA := glA A dW db (normalizer_act zero add mul sub div) in
+      let X := map (map fst) XD in
+      fr A zero add mul C
+         (map (map snd) (map (lin_eval (dzero A zero) (dadd A add) (dmul A add mul)
+            (glD A dW db (normalizer_act (dzero A zero) (dadd A add) (dmul A add mul) (dsubF A sub) (ddivF A mul sub div)))) XD)) =
+      add (dot zero add mul (lin_wpd zero add mul nin nout lA X C) (concat (map (map snd) dW) ++ map snd db))
+          (fr A zero add mul (lin_wid zero add mul nin lA X C) (map (map snd) XD)).
+Proof. exact layer_normalizer_tangent. Qed.
+Print Assumptions C04_layer_derivative_normalizer.
+
+Theorem C04_layer_derivative_softmax_partial :
+  forall (A : Type) (zero one : A) (add mul sub : A -> A -> A) (opp : A -> A) (div : A -> A -> A) (inv : A -> A),
+    field_theory zero one add mul sub opp div inv eq ->
+    forall (expA : A -> A) (nin nout : nat) (dW : list (list (D A))) (db : list (D A)) (XD : list (list (D A))) (C : list (list A)),
+      gwf A nin nout dW db -> rows nin XD -> rows nout C ->
+      (forall x, In x XD ->
+         vsum zero add (map expA (lin_pre zero add mul (glA A dW db (softmax_act zero add mul sub div expA)) (map fst x))) <> zero) ->
+      let lA := glA A dW db (softmax_act zero add mul sub div expA) in
+      let X := map (map fst) XD in
+      fr A zero add mul C
+         (map (map snd) (map (lin_eval (dzero A zero) (dadd A add) (dmul A add mul)
+            (glD A dW db (softmax_act (dzero A zero) (dadd A add) (dmul A add mul) (dsubF A sub) (ddivF A mul sub div) (dexpF A mul expA)))) XD)) =
+      add (dot zero add mul (lin_wpd zero add mul nin nout lA X C) (concat (map (map snd) dW) ++ map snd db))
+          (fr A zero add mul (lin_wid zero add mul nin lA X C) (map (map snd) XD)).
+Proof. exact layer_softmax_tangent. Qed.
+Print Assumptions C04_layer_derivative_softmax_partial.
+
+(* C04_concat_chain_rule_partial lifted: with a positive exponential (pos closed under +, positives non-zero, exp positive: every
+   ordered field with exp > 0) a LinearModel<.., SoftmaxNeuron> layer with at least one output satisfies kind_ok, i.e. it can stand
+   at any position of a concatenation in C04_het_chain_rule, optimised or frozen.  (NormalizerNeuron layers need the side condition
+   sum <> 0 on every row and are covered at layer level only.) *)
+Theorem C04_softmax_layer_kind_ok_partial :
+  forall (A : Type) (zero one : A) (add mul sub : A -> A -> A) (opp : A -> A) (div : A -> A -> A) (inv : A -> A),
+    field_theory zero one add mul sub opp div inv eq ->
+    forall (expA : A -> A) (pos : A -> Prop),
+      (forall a b, pos a -> pos b -> pos (add a b)) -> (forall a, pos a -> a <> zero) -> (forall x, pos (expA x)) ->
+      forall (nin nout : nat) (off : bool), 1 <= nout ->
+        kind_ok A zero add mul (lin_kind zero add mul nin nout off (softmax_act zero add mul sub div expA))
+                (lin_tan_row A zero add mul nin nout off
+                   (softmax_act (dzero A zero) (dadd A add) (dmul A add mul) (dsubF A sub) (ddivF A mul sub div) (dexpF A mul expA))).
+Proof. exact lin_softmax_kind_ok. Qed.
+Print Assumptions C04_softmax_layer_kind_ok_partial.
+
+(* the hypotheses are satisfiable with Leibniz equality: the canonical rationals Qc are a field, the positive ones are closed
+   under + and non-zero (any positive function can stand for exp as far as these theorems are concerned) *)
+Example C04_Qc_is_a_field : field_theory (Q2Qc 0) (Q2Qc 1) Qcplus Qcmult Qcminus Qcopp Qcdiv Qcinv eq.
+Proof. exact Qcft. Qed.
+Example C04_Qc_positive :
+  let pos := fun a : Qc => (0 < this a)%Q in
+  (forall a b, pos a -> pos b -> pos (Qcplus a b)) /\ (forall a, pos a -> a <> Q2Qc 0) /\ (forall x : Qc, pos ((fun _ => Q2Qc 1) x)).
+Proof.
+  cbv zeta. split; [|split].
+  - intros a b Ha Hb. simpl.
+    assert (E : (Qred (this a + this b) == this a + this b)%Q) by apply Qred_correct.
+    rewrite E. apply (Qlt_le_trans _ (this a + 0)%Q); [rewrite Qplus_0_r; exact Ha|].
+    apply Qplus_le_compat; [apply Qle_refl|apply Qlt_le_weak; exact Hb].
+  - intros a H E. subst. simpl in H. apply (Qlt_irrefl 0). exact H.
+  - intros x. reflexivity.
 Qed.
